@@ -1,6 +1,787 @@
 import TensorModel.Proofs.Slice
 import TensorModel.Proofs.Transpose
+import TensorModel.Proofs.Ltoi
 /-! Helper lemmas for C13 (shape algebra, reshape, metadata invariant). -/
-namespace TM
+namespace TM.ShapeAlg
 
-end TM
+/-! ### closed forms of `AP.S`, `Shape.S` and their loops -/
+
+def apSOd (ap : AP) : Nat := if !ap.o.col || isVector ap.shape then 0 else ap.shape.length - 1
+
+def apSOut (ap : AP) (size : Int) (sls : List (Option Sl)) (rs : List AxisRes) : AP × Int × Int :=
+  let ndStart := sumI (rs.map (·.dStart))
+  let ndEnd := size - sumI (rs.map (·.dEnd))
+  let nc := rs.any (·.nonContig)
+  let order := if nc then { ap.o with nonContig := true } else ap.o
+  if ndEnd - ndStart == 1 then
+    ({ shape := [], strides := [], fin := true, o := {} }, ndStart, ndEnd)
+  else
+    let keep := (rs.zip (sls.map Option.isSome ++ List.replicate rs.length false)).filter
+      (fun (r, given) => !(r.n == 1 && given))
+    let kept := keep.map (·.1)
+    ({ shape := kept.map (·.n), strides := kept.map (·.stride), fin := true, o := order }, ndStart, ndEnd)
+
+theorem apS_eq (ap : AP) (size : Int) (sls : List (Option Sl)) :
+    ap.S size sls =
+      if sls.length > ap.shape.length then throwErr "dimMismatch"
+      else (apSLoop (isVector ap.shape) (apSOd ap) 0 ap.shape ap.strides sls).map (apSOut ap size sls) := by
+  unfold AP.S apSOut apSOd
+  split
+  · rfl
+  · simp only [bind, Except.bind, pure, Except.pure]
+    cases apSLoop (isVector ap.shape) (if (!ap.o.col || isVector ap.shape) = true then 0 else ap.shape.length - 1) 0 ap.shape ap.strides sls with
+    | error e => rfl
+    | ok rs =>
+      simp only [Except.map]
+      split <;> rfl
+
+def shapeSOut (ns : List (Int × Bool)) : Shape :=
+  (ns.filter (fun (n, given) => !(n == 1 && given))).map (·.1)
+
+theorem shapeS_eq (shape : Shape) (sls : List (Option Sl)) :
+    shapeS shape sls =
+      if sls.length > shape.length then throwErr "dimMismatch"
+      else (shapeS.loop shape sls).map shapeSOut := by
+  unfold shapeS shapeSOut
+  split
+  · rfl
+  · simp only [bind, Except.bind, pure, Except.pure]
+    cases shapeS.loop shape sls <;> rfl
+
+def shapeN (start stop step : Int) : Int :=
+  if step > 0 then (let q := goDiv (stop - start) step; if q ≤ 0 then 1 else q) else stop - start
+
+theorem shapeS_loop_nil (sls : List (Option Sl)) : shapeS.loop [] sls = .ok [] := by
+  simp [shapeS.loop]
+
+theorem shapeS_loop_cons (d : Int) (ds : Shape) (sls : List (Option Sl)) :
+    shapeS.loop (d :: ds) sls =
+      match sliceDetails sls.head?.join d with
+      | .error e => .error e
+      | .ok (start, stop, step) =>
+        match shapeS.loop ds sls.tail with
+        | .error e => .error e
+        | .ok tl => .ok ((shapeN start stop step, sls.head?.join.isSome) :: tl) := by
+  rw [shapeS.loop]
+  simp only [bind, Except.bind, pure, Except.pure]
+  cases sliceDetails sls.head?.join d with
+  | error e => rfl
+  | ok v =>
+    obtain ⟨a, b, c⟩ := v
+    simp only []
+    cases shapeS.loop ds sls.tail <;> rfl
+
+theorem sliceAxis_eq (isVec : Bool) (od i : Nat) (size stride : Int) (sl : Option Sl) :
+    sliceAxis isVec od i size stride sl =
+      match sliceDetails sl size with
+      | .error e => .error e
+      | .ok (start, stop, step) =>
+        .ok { n := axisN i start stop step, stride := if step > 0 then stride * step else stride,
+              dStart := start * stride, dEnd := (size - stop) * stride,
+              nonContig := (sl.isSome && (!isVec && i != od)) || step > 1 } := by
+  unfold sliceAxis axisN
+  simp only [bind, Except.bind, pure, Except.pure]
+  cases sliceDetails sl size with
+  | error e => rfl
+  | ok v =>
+    obtain ⟨a, b, c⟩ := v
+    simp only []
+    split <;> rfl
+
+theorem apSLoop_cons (isVec : Bool) (od i : Nat) (d : Int) (ds : Shape) (s : Int) (ss : List Int) (sls : List (Option Sl)) :
+    apSLoop isVec od i (d :: ds) (s :: ss) sls =
+      match sliceAxis isVec od i d s sls.head?.join with
+      | .error e => .error e
+      | .ok r =>
+        match apSLoop isVec od (i + 1) ds ss sls.tail with
+        | .error e => .error e
+        | .ok rs => .ok (r :: rs) := by
+  rw [apSLoop]
+  simp only [bind, Except.bind, pure, Except.pure]
+  cases sliceAxis isVec od i d s sls.head?.join with
+  | error e => rfl
+  | ok r => cases apSLoop isVec od (i + 1) ds ss sls.tail <;> rfl
+
+
+theorem loop_error_iff (isVec : Bool) (od : Nat) : ∀ (shape : Shape) (strides : List Int)
+    (sls : List (Option Sl)) (i : Nat) (e : Err), strides.length = shape.length →
+    (shapeS.loop shape sls = .error e ↔ apSLoop isVec od i shape strides sls = .error e) := by
+  intro shape
+  induction shape with
+  | nil => intro strides sls i e _; simp [shapeS_loop_nil, apSLoop]
+  | cons d ds ih =>
+    intro strides sls i e hl
+    cases strides with
+    | nil => simp at hl
+    | cons s ss =>
+      have hl' : ss.length = ds.length := by simpa using hl
+      rw [shapeS_loop_cons, apSLoop_cons, sliceAxis_eq]
+      cases sliceDetails sls.head?.join d with
+      | error e' => simp
+      | ok v =>
+        obtain ⟨a, b, c⟩ := v
+        simp only []
+        cases h1 : shapeS.loop ds sls.tail with
+        | error e1 =>
+          have := (ih ss sls.tail (i + 1) e1 hl').1 h1
+          rw [this]; simp
+        | ok ns =>
+          cases h2 : apSLoop isVec od (i + 1) ds ss sls.tail with
+          | error e2 =>
+            have := (ih ss sls.tail (i + 1) e2 hl').2 h2
+            rw [h1] at this; cases this
+          | ok rs => simp
+
+theorem sliceDetails_not_panic (sl : Option Sl) (d : Int) (tag : String) :
+    sliceDetails sl d ≠ .error (.panic tag) := by
+  cases sl with
+  | none => simp [sliceDetails]
+  | some s =>
+    rw [sliceDetails_some]
+    repeat' split
+    all_goals simp [throwErr]
+
+theorem shapeS_loop_not_panic : ∀ (shape : Shape) (sls : List (Option Sl)) (tag : String),
+    shapeS.loop shape sls ≠ .error (.panic tag) := by
+  intro shape
+  induction shape with
+  | nil => intro sls tag; simp [shapeS_loop_nil]
+  | cons d ds ih =>
+    intro sls tag
+    rw [shapeS_loop_cons]
+    cases hd : sliceDetails sls.head?.join d with
+    | error e' =>
+      intro h
+      simp only [] at h
+      injection h with h
+      subst h
+      exact sliceDetails_not_panic _ _ _ hd
+    | ok v =>
+      obtain ⟨a, b, c⟩ := v
+      simp only []
+      cases h1 : shapeS.loop ds sls.tail with
+      | error e1 =>
+        intro h
+        injection h with h
+        subst h
+        exact ih _ _ h1
+      | ok ns => simp
+
+theorem except_map_eq_error {ε α β} (f : α → β) (x : Except ε α) (e : ε) :
+    x.map f = .error e ↔ x = .error e := by
+  cases x <;> simp [Except.map]
+
+theorem shapeS_error_iff_apS_error (ap : AP) (size : Int) (sls : List (Option Sl))
+    (hl : ap.strides.length = ap.shape.length) (e : Err) :
+    shapeS ap.shape sls = .error e ↔ ap.S size sls = .error e := by
+  rw [shapeS_eq, apS_eq]
+  split
+  · simp [throwErr]
+  · rw [except_map_eq_error, except_map_eq_error]
+    exact loop_error_iff _ _ _ _ _ _ _ hl
+
+theorem shapeS_not_panic (shape : Shape) (sls : List (Option Sl)) (tag : String) :
+    shapeS shape sls ≠ .error (.panic tag) := by
+  rw [shapeS_eq]
+  split
+  · simp [throwErr]
+  · rw [Ne, except_map_eq_error]
+    exact shapeS_loop_not_panic _ _ _
+
+/-- per-axis predicate of `Excl_shapeSFloor` -/
+def floorBad (d : Int) (sl : Option Sl) : Bool :=
+  match sl with
+  | some s =>
+    let e := if s.stop > d then d else s.stop
+    decide (s.step > 1) && decide (0 ≤ s.start) && decide (s.start < e) && (e - s.start) % s.step != 0
+  | none => false
+
+def exclRec : Shape → List (Option Sl) → Bool
+  | [], _ => false
+  | d :: ds, sls => floorBad d sls.head?.join || exclRec ds sls.tail
+
+theorem excl_zip_eq : ∀ (shape : Shape) (sls : List (Option Sl)) (k : Nat), shape.length ≤ k →
+    (List.zip shape (sls ++ List.replicate k none)).any (fun x => floorBad x.1 x.2) = exclRec shape sls := by
+  intro shape
+  induction shape with
+  | nil => intro sls k _; simp [exclRec]
+  | cons d ds ih =>
+    intro sls k hk
+    cases sls with
+    | nil =>
+      cases k with
+      | zero => simp at hk
+      | succ k' =>
+        have := ih [] k' (by simpa using hk)
+        simp only [List.nil_append] at this
+        simp [List.replicate_succ, exclRec, this]
+    | cons s t =>
+      have := ih t k (by simp at hk; omega)
+      simp [exclRec, this]
+
+theorem excl_eq_rec (shape : Shape) (sls : List (Option Sl)) :
+    Excl_shapeSFloor shape sls = exclRec shape sls := by
+  rw [← excl_zip_eq shape sls shape.length (Nat.le_refl _)]
+  rfl
+
+theorem axisN_eq_shapeN (i : Nat) (sl : Option Sl) (d a b c : Int)
+    (hd : sliceDetails sl d = .ok (a, b, c)) (hx : floorBad d sl = false) :
+    axisN i a b c = shapeN a b c := by
+  have key : c > 0 → ¬ (goMod (b - a) c > 0) := by
+    intro hc
+    cases sl with
+    | none =>
+      simp only [sliceDetails] at hd
+      injection hd with hd
+      simp only [Prod.mk.injEq] at hd
+      obtain ⟨rfl, rfl, rfl⟩ := hd
+      simp [goMod]
+    | some s =>
+      rw [sliceDetails_some] at hd
+      split at hd
+      · repeat' split at hd
+        all_goals cases hd
+      · rename_i hcond
+        injection hd with hd
+        simp only [Prod.mk.injEq] at hd
+        obtain ⟨rfl, rfl, rfl⟩ := hd
+        have hm : (if s.stop > d then d else s.stop) = min s.stop d := by split <;> omega
+        simp only [floorBad, hm, Bool.and_eq_false_iff, decide_eq_false_iff_not, bne_eq_false_iff_eq] at hx
+        have hD : 0 ≤ min s.stop d - s.start := by omega
+        unfold goMod
+        rw [Int.tmod_eq_emod_of_nonneg hD]
+        by_cases h1 : s.step = 1
+        · rw [h1]; simp
+        · by_cases h0 : min s.stop d - s.start = 0
+          · rw [h0]; simp
+          · have : (min s.stop d - s.start) % s.step = 0 := by
+              rcases hx with ((hx | hx) | hx) | hx
+              · omega
+              · omega
+              · omega
+              · exact hx
+            omega
+  unfold axisN shapeN
+  by_cases hc : c > 0
+  · have := key hc
+    simp [hc, this]
+  · simp [hc]
+
+theorem loop_ok_rel (isVec : Bool) (od : Nat) : ∀ (shape : Shape) (strides : List Int)
+    (sls : List (Option Sl)) (i : Nat) (rs : List AxisRes) (k : Nat), shape.length ≤ k →
+    apSLoop isVec od i shape strides sls = .ok rs → exclRec shape sls = false →
+    shapeS.loop shape sls =
+      .ok ((rs.zip (sls.map Option.isSome ++ List.replicate k false)).map (fun x => (x.1.n, x.2))) := by
+  intro shape
+  induction shape with
+  | nil =>
+    intro strides sls i rs k _ h _
+    simp only [apSLoop] at h
+    injection h with h
+    subst h
+    simp [shapeS_loop_nil]
+  | cons d ds ih =>
+    intro strides sls i rs k hk h hx
+    cases strides with
+    | nil => simp [apSLoop, throwPanic] at h
+    | cons s ss =>
+      rw [apSLoop_cons, sliceAxis_eq] at h
+      rw [shapeS_loop_cons]
+      simp only [exclRec, Bool.or_eq_false_iff] at hx
+      cases hd : sliceDetails sls.head?.join d with
+      | error e => rw [hd] at h; cases h
+      | ok v =>
+        obtain ⟨a, b, c⟩ := v
+        rw [hd] at h
+        simp only [] at h ⊢
+        cases h2 : apSLoop isVec od (i + 1) ds ss sls.tail with
+        | error e => rw [h2] at h; cases h
+        | ok rs' =>
+          rw [h2] at h
+          injection h with h
+          subst h
+          have hn := axisN_eq_shapeN i _ d a b c hd hx.1
+          cases sls with
+          | nil =>
+            cases k with
+            | zero => simp at hk
+            | succ k' =>
+              have := ih ss [] (i + 1) rs' k' (by simpa using hk) h2 hx.2
+              simp only [List.tail_nil, List.map_nil, List.nil_append] at this ⊢
+              rw [this]
+              simp [List.replicate_succ, hn]
+          | cons s0 t =>
+            have := ih ss t (i + 1) rs' k (by simp at hk; omega) h2 hx.2
+            simp only [List.tail_cons] at this ⊢
+            rw [this]
+            simp [hn]
+
+theorem apSLoop_length (isVec : Bool) (od : Nat) : ∀ (shape : Shape) (strides : List Int)
+    (sls : List (Option Sl)) (i : Nat) (rs : List AxisRes),
+    apSLoop isVec od i shape strides sls = .ok rs → rs.length = shape.length := by
+  intro shape
+  induction shape with
+  | nil =>
+    intro strides sls i rs h
+    simp only [apSLoop] at h
+    injection h with h
+    subst h
+    rfl
+  | cons d ds ih =>
+    intro strides sls i rs h
+    cases strides with
+    | nil => simp [apSLoop, throwPanic] at h
+    | cons s ss =>
+      rw [apSLoop_cons] at h
+      cases h1 : sliceAxis isVec od i d s sls.head?.join with
+      | error e => rw [h1] at h; cases h
+      | ok r =>
+        rw [h1] at h
+        simp only [] at h
+        cases h2 : apSLoop isVec od (i + 1) ds ss sls.tail with
+        | error e => rw [h2] at h; cases h
+        | ok rs' =>
+          rw [h2] at h
+          injection h with h
+          subst h
+          simp [ih _ _ _ _ h2]
+
+theorem shapeS_eq_apS_of_excl (ap nap : AP) (size ndStart ndEnd : Int) (sls : List (Option Sl))
+    (h : ap.S size sls = .ok (nap, ndStart, ndEnd)) (hns : ndEnd - ndStart ≠ 1)
+    (hx : Excl_shapeSFloor ap.shape sls = false) :
+    shapeS ap.shape sls = .ok nap.shape := by
+  rw [apS_eq] at h
+  rw [shapeS_eq]
+  rw [excl_eq_rec] at hx
+  split at h
+  · cases h
+  · rename_i hlen
+    rw [if_neg hlen]
+    cases hrs : apSLoop (isVector ap.shape) (apSOd ap) 0 ap.shape ap.strides sls with
+    | error e => rw [hrs] at h; cases h
+    | ok rs =>
+      have hlen_rs : rs.length = ap.shape.length := apSLoop_length _ _ _ _ _ _ _ hrs
+      rw [loop_ok_rel _ _ _ _ _ _ rs rs.length (by omega) hrs hx]
+      rw [hrs] at h
+      simp only [Except.map, apSOut] at h ⊢
+      injection h with h
+      split at h
+      · rename_i hone
+        simp only [Prod.mk.injEq] at h
+        obtain ⟨-, h2, h3⟩ := h
+        subst h2 h3
+        simp at hone
+        omega
+      · simp only [Prod.mk.injEq] at h
+        obtain ⟨h1, -, -⟩ := h
+        subst h1
+        simp only [shapeSOut, List.filter_map, List.map_map]
+        rfl
+
+theorem reshape_mismatch (st : St) (t : Dense) (dims : List Int)
+    (h : totalSize t.shape ≠ totalSize dims) : t.reshape st dims = .ok (.errKept t) := by
+  unfold Dense.reshape
+  have : (totalSize t.shape != totalSize dims) = true := by simpa using h
+  simp only [this, if_true]
+  rfl
+
+theorem reshape_plain' (st : St) (t : Dense) (dims : List Int)
+    (hsz : totalSize t.shape = totalSize dims) (hold : t.old = none) (hv : t.view = false)
+    (hlen : (t.win.len : Int) = totalSize dims) (hne : dims ≠ []) :
+    t.reshape st dims = .ok (.ok st { t with
+      ap := { t.ap with shape := dims, strides := Dense.defaultStrides t.ap.o.col dims, fin := true } }) := by
+  unfold Dense.reshape
+  have h1 : (totalSize t.shape != totalSize dims) = false := by simpa using hsz
+  have h2 : dims.isEmpty = false := by cases dims <;> simp_all
+  simp [h1, hold, hv, hlen, h2, bind, Except.bind, pure, Except.pure]
+
+/-! ### the covering invariant -/
+
+theorem dot_box_bounds : ∀ (shape : Shape) (strides c : List Int),
+    (∀ s ∈ strides, 0 ≤ s) → inBox shape c = true →
+    0 ≤ dot c strides ∧ dot c strides ≤ dot (shape.map (· - 1)) strides := by
+  intro shape
+  induction shape with
+  | nil => intro strides c _ h; cases c <;> simp_all [inBox, dot]
+  | cons d ds ih =>
+    intro strides c hs h
+    cases c with
+    | nil => simp [inBox] at h
+    | cons x xs =>
+      cases strides with
+      | nil => simp [dot]
+      | cons s ss =>
+        simp only [inBox, Bool.and_eq_true, decide_eq_true_eq] at h
+        obtain ⟨⟨h0, h1⟩, hrest⟩ := h
+        have hs0 : 0 ≤ s := hs s List.mem_cons_self
+        have := ih ss xs (fun y hy => hs y (List.mem_cons_of_mem _ hy)) hrest
+        simp only [List.map_cons, dot]
+        have a1 : 0 ≤ x * s := Int.mul_nonneg h0 hs0
+        have a2 : x * s ≤ (d - 1) * s := Int.mul_le_mul_of_nonneg_right (by omega) hs0
+        omega
+
+theorem prod_pos : ∀ (shape : Shape), (∀ d ∈ shape, 0 < d) → 0 < prod shape := by
+  intro shape
+  induction shape with
+  | nil => intro _; simp [prod]
+  | cons d ds ih =>
+    intro h
+    simp only [prod]
+    exact Int.mul_pos (h d List.mem_cons_self) (ih (fun y hy => h y (List.mem_cons_of_mem _ hy)))
+
+theorem calcStrides_nonneg : ∀ (shape : Shape), (∀ d ∈ shape, 0 < d) → ∀ s ∈ calcStrides shape, 0 ≤ s := by
+  intro shape
+  induction shape with
+  | nil => intro _ s hs; simp [calcStrides] at hs
+  | cons d ds ih =>
+    intro h s hs
+    have hds : ∀ y ∈ ds, 0 < y := fun y hy => h y (List.mem_cons_of_mem _ hy)
+    simp only [calcStrides, List.mem_cons] at hs
+    rcases hs with rfl | hs
+    · exact Int.le_of_lt (prod_pos ds hds)
+    · exact ih hds s hs
+
+theorem dot_calcStrides_max : ∀ (shape : Shape),
+    dot (shape.map (· - 1)) (calcStrides shape) = prod shape - 1 := by
+  intro shape
+  induction shape with
+  | nil => simp [dot, prod]
+  | cons d ds ih =>
+    simp only [List.map_cons, calcStrides, dot, prod, ih, Int.sub_mul, Int.one_mul]
+    omega
+
+/-! ### slicing preserves the covering invariant -/
+
+theorem sliceDetails_cov (sl : Option Sl) (d : Int) (hd0 : 0 < d)
+    (hsl : ∀ x, sl = some x → 0 ≤ x.step ∧ x.start < x.stop) (a b c : Int)
+    (h : sliceDetails sl d = .ok (a, b, c)) : 0 ≤ a ∧ a < b ∧ b ≤ d ∧ 0 ≤ c := by
+  cases sl with
+  | none =>
+    simp only [sliceDetails] at h
+    injection h with h
+    simp only [Prod.mk.injEq] at h
+    obtain ⟨rfl, rfl, rfl⟩ := h
+    omega
+  | some s =>
+    obtain ⟨h1, h2⟩ := hsl s rfl
+    rw [sliceDetails_some] at h
+    split at h
+    · repeat' split at h
+      all_goals cases h
+    · rename_i hcond
+      injection h with h
+      simp only [Prod.mk.injEq] at h
+      obtain ⟨rfl, rfl, rfl⟩ := h
+      omega
+
+theorem axisN_bound (i : Nat) (a b c : Int) (hab : a < b) (hc : 0 ≤ c) :
+    0 < axisN i a b c ∧ (axisN i a b c - 1) * (if c > 0 then c else 1) ≤ b - a - 1 := by
+  unfold axisN
+  by_cases hc0 : c > 0
+  · simp only [hc0, if_true]
+    have hD : 0 < b - a := by omega
+    generalize b - a = D at *
+    have hq : goDiv D c = D / c := by
+      unfold goDiv; exact Int.tdiv_eq_ediv_of_nonneg (by omega)
+    have hm : goMod D c = D % c := by
+      unfold goMod; exact Int.tmod_eq_emod_of_nonneg (by omega)
+    have hdm := Int.mul_ediv_add_emod D c
+    have h0 := Int.emod_nonneg D (Int.ne_of_gt hc0)
+    have h1 := Int.emod_lt_of_pos D hc0
+    have hqnn : 0 ≤ D / c := Int.ediv_nonneg (by omega) (by omega)
+    rw [hq, hm]
+    generalize D / c = q at *
+    generalize D % c = m at *
+    by_cases hr : (decide (m > 0) && decide (i > 0)) = true
+    · simp only [hr, if_true]
+      simp only [Bool.and_eq_true, decide_eq_true_eq] at hr
+      rw [if_neg (by omega)]
+      refine ⟨by omega, ?_⟩
+      have : (q + 1 - 1) * c = c * q := by
+        rw [Int.add_sub_cancel, Int.mul_comm]
+      omega
+    · simp only [hr]
+      by_cases hq0 : q ≤ 0
+      · simp only [hq0, if_true, Bool.false_eq_true, if_false]
+        refine ⟨by omega, ?_⟩
+        simp; omega
+      · simp only [hq0, if_false, Bool.false_eq_true]
+        refine ⟨by omega, ?_⟩
+        have : (q - 1) * c = c * q - c := by
+          rw [Int.sub_mul, Int.one_mul, Int.mul_comm]
+        omega
+  · simp only [hc0, if_false]
+    omega
+
+theorem sliceAxis_cov (isVec : Bool) (od i : Nat) (d stride : Int) (sl : Option Sl) (r : AxisRes)
+    (hd0 : 0 < d) (hs0 : 0 ≤ stride) (hsl : ∀ x, sl = some x → 0 ≤ x.step ∧ x.start < x.stop)
+    (h : sliceAxis isVec od i d stride sl = .ok r) :
+    0 ≤ r.dStart ∧ 0 ≤ r.dEnd ∧ 0 ≤ r.stride ∧ 0 < r.n ∧
+      (r.n - 1) * r.stride + r.dStart + r.dEnd ≤ (d - 1) * stride := by
+  rw [sliceAxis_eq] at h
+  cases hd : sliceDetails sl d with
+  | error e => rw [hd] at h; cases h
+  | ok v =>
+    obtain ⟨a, b, c⟩ := v
+    rw [hd] at h
+    injection h with h
+    subst h
+    obtain ⟨ha, hab, hbd, hc⟩ := sliceDetails_cov sl d hd0 hsl a b c hd
+    obtain ⟨hn, hm⟩ := axisN_bound i a b c hab hc
+    simp only []
+    have e1 : (if c > 0 then stride * c else stride) = (if c > 0 then c else 1) * stride := by
+      split
+      · exact Int.mul_comm _ _
+      · simp
+    rw [e1]
+    have heff : 0 < (if c > 0 then c else 1) := by split <;> omega
+    generalize (if c > 0 then c else 1) = eff at *
+    have t1 : 0 ≤ a * stride := Int.mul_nonneg ha hs0
+    have t2 : 0 ≤ (d - b) * stride := Int.mul_nonneg (by omega) hs0
+    have t3 : (axisN i a b c - 1) * eff * stride ≤ (b - a - 1) * stride :=
+      Int.mul_le_mul_of_nonneg_right hm hs0
+    refine ⟨t1, t2, ?_, hn, ?_⟩
+    · exact Int.mul_nonneg (by omega) hs0
+    · rw [← Int.mul_assoc]
+      have e2 : (b - a - 1) * stride + a * stride + (d - b) * stride = (d - 1) * stride := by
+        simp only [Int.sub_mul]; omega
+      omega
+
+theorem head_join_mem {α} (l : List (Option α)) (x : α) (h : l.head?.join = some x) : some x ∈ l := by
+  cases l with
+  | nil => simp at h
+  | cons a t =>
+    simp only [List.head?_cons, Option.join_some] at h
+    rw [h]; exact List.mem_cons_self
+
+theorem apSLoop_cov (isVec : Bool) (od : Nat) : ∀ (shape : Shape) (strides : List Int)
+    (sls : List (Option Sl)) (i : Nat) (rs : List AxisRes),
+    (∀ s ∈ strides, 0 ≤ s) → (∀ d ∈ shape, 0 < d) →
+    (∀ s ∈ sls, ∀ x, s = some x → 0 ≤ x.step ∧ x.start < x.stop) →
+    apSLoop isVec od i shape strides sls = .ok rs →
+    (∀ r ∈ rs, 0 ≤ r.stride ∧ 0 < r.n) ∧ 0 ≤ sumI (rs.map (·.dStart)) ∧ 0 ≤ sumI (rs.map (·.dEnd)) ∧
+      sumI (rs.map (fun r => (r.n - 1) * r.stride)) + sumI (rs.map (·.dStart)) + sumI (rs.map (·.dEnd))
+        ≤ dot (shape.map (· - 1)) strides := by
+  intro shape
+  induction shape with
+  | nil =>
+    intro strides sls i rs _ _ _ h
+    simp only [apSLoop] at h
+    injection h with h
+    subst h
+    simp [sumI, dot]
+  | cons d ds ih =>
+    intro strides sls i rs hs hd hsl h
+    cases strides with
+    | nil => simp [apSLoop, throwPanic] at h
+    | cons s ss =>
+      rw [apSLoop_cons] at h
+      cases h1 : sliceAxis isVec od i d s sls.head?.join with
+      | error e => rw [h1] at h; cases h
+      | ok r =>
+        rw [h1] at h
+        simp only [] at h
+        cases h2 : apSLoop isVec od (i + 1) ds ss sls.tail with
+        | error e => rw [h2] at h; cases h
+        | ok rs' =>
+          rw [h2] at h
+          injection h with h
+          subst h
+          obtain ⟨a1, a2, a3, a4, a5⟩ := sliceAxis_cov isVec od i d s _ r (hd d List.mem_cons_self)
+            (hs s List.mem_cons_self)
+            (fun x hx => hsl (some x) (head_join_mem _ _ hx) x rfl) h1
+          obtain ⟨b1, b2, b3, b4⟩ := ih ss sls.tail (i + 1) rs'
+            (fun y hy => hs y (List.mem_cons_of_mem _ hy))
+            (fun y hy => hd y (List.mem_cons_of_mem _ hy))
+            (fun y hy => hsl y (List.mem_of_mem_tail hy)) h2
+          refine ⟨?_, ?_, ?_, ?_⟩
+          · intro r' hr'
+            rcases List.mem_cons.1 hr' with rfl | hr'
+            · exact ⟨a3, a4⟩
+            · exact b1 r' hr'
+          · simp only [List.map_cons, sumI]; omega
+          · simp only [List.map_cons, sumI]; omega
+          · simp only [List.map_cons, sumI, dot]; omega
+
+theorem sumI_nonneg : ∀ (l : List Int), (∀ x ∈ l, 0 ≤ x) → 0 ≤ sumI l := by
+  intro l
+  induction l with
+  | nil => intro _; simp [sumI]
+  | cons a t ih =>
+    intro h
+    have := ih (fun x hx => h x (List.mem_cons_of_mem _ hx))
+    have := h a List.mem_cons_self
+    simp only [sumI]; omega
+
+theorem kept_mem (rs : List AxisRes) (flags : List Bool) (p : AxisRes × Bool → Bool) (r : AxisRes)
+    (h : r ∈ ((rs.zip flags).filter p).map (·.1)) : r ∈ rs := by
+  obtain ⟨x, hx, rfl⟩ := List.mem_map.1 h
+  have := (List.mem_filter.1 hx).1
+  obtain ⟨a, b⟩ := x
+  exact (List.of_mem_zip this).1
+
+theorem kept_dot_le : ∀ (rs : List AxisRes) (flags : List Bool) (p : AxisRes × Bool → Bool),
+    rs.length ≤ flags.length → (∀ r ∈ rs, 0 ≤ r.stride ∧ 0 < r.n) →
+    dot (((((rs.zip flags).filter p).map (·.1)).map (·.n)).map (· - 1))
+        ((((rs.zip flags).filter p).map (·.1)).map (·.stride))
+      ≤ sumI (rs.map (fun r => (r.n - 1) * r.stride)) := by
+  intro rs
+  induction rs with
+  | nil => intro flags p _ _; simp [dot, sumI]
+  | cons r rs' ih =>
+    intro flags p hl hnn
+    cases flags with
+    | nil => simp at hl
+    | cons b bs =>
+      have := ih bs p (by simp at hl; omega) (fun y hy => hnn y (List.mem_cons_of_mem _ hy))
+      obtain ⟨c1, c2⟩ := hnn r List.mem_cons_self
+      have t : 0 ≤ (r.n - 1) * r.stride := Int.mul_nonneg (by omega) c1
+      simp only [List.zip_cons_cons, List.map_cons, sumI]
+      by_cases hp : p (r, b) = true
+      · rw [List.filter_cons_of_pos hp]
+        simp only [List.map_cons, dot]
+        omega
+      · rw [List.filter_cons_of_neg hp]
+        omega
+
+theorem apS_cov (ap nap : AP) (size ndStart ndEnd : Int) (sls : List (Option Sl))
+    (hs : ∀ s ∈ ap.strides, 0 ≤ s) (hd : ∀ d ∈ ap.shape, 0 < d)
+    (hdot : dot (ap.shape.map (· - 1)) ap.strides < size)
+    (hstep : ∀ s ∈ sls, ∀ x, s = some x → 0 ≤ x.step ∧ x.start < x.stop)
+    (h : ap.S size sls = .ok (nap, ndStart, ndEnd)) :
+    0 ≤ ndStart ∧ ndStart ≤ ndEnd ∧ ndEnd ≤ size ∧
+      nap.strides.length = nap.shape.length ∧ (∀ s ∈ nap.strides, 0 ≤ s) ∧ (∀ d ∈ nap.shape, 0 < d) ∧
+      dot (nap.shape.map (· - 1)) nap.strides < ndEnd - ndStart := by
+  rw [apS_eq] at h
+  split at h
+  · cases h
+  · cases hrs : apSLoop (isVector ap.shape) (apSOd ap) 0 ap.shape ap.strides sls with
+    | error e => rw [hrs] at h; cases h
+    | ok rs =>
+      obtain ⟨b1, b2, b3, b4⟩ := apSLoop_cov _ _ _ _ _ _ rs hs hd hstep hrs
+      have b5 : 0 ≤ sumI (rs.map (fun r => (r.n - 1) * r.stride)) := by
+        apply sumI_nonneg
+        intro x hx
+        obtain ⟨r, hr, rfl⟩ := List.mem_map.1 hx
+        obtain ⟨c1, c2⟩ := b1 r hr
+        exact Int.mul_nonneg (by omega) c1
+      rw [hrs] at h
+      simp only [Except.map, apSOut] at h
+      injection h with h
+      split at h
+      · rename_i hone
+        simp only [Prod.mk.injEq] at h
+        obtain ⟨h1, h2, h3⟩ := h
+        subst h1 h2 h3
+        simp only [beq_iff_eq] at hone
+        refine ⟨b2, by omega, by omega, rfl, by simp, by simp, ?_⟩
+        simp [dot]; omega
+      · simp only [Prod.mk.injEq] at h
+        obtain ⟨h1, h2, h3⟩ := h
+        subst h1 h2 h3
+        simp only []
+        refine ⟨b2, by omega, by omega, by simp, ?_, ?_, ?_⟩
+        · intro s hs'
+          obtain ⟨r, hr, rfl⟩ := List.mem_map.1 hs'
+          exact (b1 r (kept_mem _ _ _ r hr)).1
+        · intro d hd'
+          obtain ⟨r, hr, rfl⟩ := List.mem_map.1 hd'
+          exact (b1 r (kept_mem _ _ _ r hr)).2
+        · have := kept_dot_le rs (sls.map Option.isSome ++ List.replicate rs.length false)
+            (fun x => !(x.1.n == 1 && x.2)) (by simp) b1
+          omega
+
+/-! ### lazy transposition preserves the covering invariant -/
+
+theorem unsafePermute_noop (p : List Int) (xs : List Int) (hn : xs.length ≤ 5)
+    (hp : isPerm p xs.length = true)
+    (hi : ((isMonotonicInts p).1 && (isMonotonicInts p).2) = true) :
+    unsafePermute p xs = .ok PermRes.noop := by
+  have h := unsafePermute_map' (fun i : Int => xs[i.toNat]!) p (rangeI xs.length)
+  rw [map_rangeI_getElem, unsafePermute_rangeI _ hn p hp, if_pos hi] at h
+  exact h
+
+theorem isPerm_mem_lt {p : List Int} {n : Nat} (hp : isPerm p n = true) {i : Int} (hi : i ∈ p) :
+    ∃ j, j < n ∧ i = Int.ofNat j := by
+  have := (isPerm_perm hp).symm.subset hi
+  obtain ⟨j, hj, rfl⟩ := mem_rangeI.1 this
+  exact ⟨j, hj, rfl⟩
+
+theorem gather_mem (p : List Int) (n : Nat) (hp : isPerm p n = true) (xs : List Int) (hx : xs.length = n)
+    (y : Int) (hy : y ∈ p.map (fun i => xs[i.toNat]!)) : y ∈ xs := by
+  obtain ⟨i, hi, rfl⟩ := List.mem_map.1 hy
+  obtain ⟨j, hj, rfl⟩ := isPerm_mem_lt hp hi
+  have hj' : j < xs.length := by omega
+  simp [hj']
+
+theorem gather_map (f : Int → Int) (p : List Int) (n : Nat) (hp : isPerm p n = true) (xs : List Int)
+    (hx : xs.length = n) :
+    p.map (fun i => (xs.map f)[i.toNat]!) = (p.map (fun i => xs[i.toNat]!)).map f := by
+  rw [List.map_map]
+  apply List.map_congr_left
+  intro i hi
+  obtain ⟨j, hj, rfl⟩ := isPerm_mem_lt hp hi
+  have hj' : j < xs.length := by omega
+  simp [hj']
+
+theorem apT_ok_cases (ap tap : AP) (axes ax' : List Int) (hr : ap.shape.length ≤ 5)
+    (hl : ap.strides.length = ap.shape.length)
+    (hp : isPerm axes ap.shape.length = true)
+    (h : ap.T axes = .ok (.ok tap ax')) (hnv : isVector ap.shape = false) :
+    (tap.shape = ap.shape ∧ tap.strides = ap.strides) ∨
+    (tap.shape = axes.map (fun i => ap.shape[i.toNat]!) ∧
+      tap.strides = axes.map (fun i => ap.strides[i.toNat]!)) := by
+  have hlen := ((isPerm_iff _ _).1 hp).1
+  by_cases hse : isScalarEquiv ap.shape = true
+  · unfold AP.T at h
+    simp [hlen, hse, pure, Except.pure] at h
+  · have hse' : isScalarEquiv ap.shape = false := by simpa using hse
+    have hemp : axes.isEmpty = false := by
+      cases axes with
+      | nil =>
+        have : ap.shape = [] := List.eq_nil_of_length_eq_zero hlen.symm
+        rw [this] at hse; simp [isScalarEquiv] at hse
+      | cons _ _ => rfl
+    unfold AP.T at h
+    by_cases hni : ((isMonotonicInts axes).1 && (isMonotonicInts axes).2) = true
+    · have hsh := unsafePermute_noop axes ap.shape hr hp hni
+      have hst := unsafePermute_noop axes ap.strides (hl ▸ hr) (hl ▸ hp) hni
+      by_cases hh : (axes.head? == some 0) = true
+      · simp [hlen, hemp, hse', hni, hh, pure, Except.pure] at h
+      · simp only [hlen, hemp, hse', hnv, hni, hh, hsh, hst, Bool.false_eq_true, if_false, bne_self_eq_false,
+          Bool.and_false, bind, Except.bind, pure, Except.pure] at h
+        injection h with h
+        injection h with h1 h2
+        subst h1
+        exact .inl ⟨rfl, rfl⟩
+    · have hni' : ((isMonotonicInts axes).1 && (isMonotonicInts axes).2) = false := by simpa using hni
+      have hsh := unsafePermute_getElem axes ap.shape hr hp hni
+      have hst := unsafePermute_getElem axes ap.strides (hl ▸ hr) (hl ▸ hp) hni
+      simp only [hlen, hemp, hse', hnv, hni', hsh, hst, Bool.false_eq_true, if_false, bne_self_eq_false,
+          Bool.and_false, Bool.false_and, bind, Except.bind, pure, Except.pure] at h
+      injection h with h
+      injection h with h1 h2
+      subst h1
+      exact .inr ⟨rfl, rfl⟩
+
+theorem apT_cov (ap tap : AP) (len : Int) (axes ax' : List Int) (hr : ap.shape.length ≤ 5)
+    (hl : ap.strides.length = ap.shape.length)
+    (hs : ∀ s ∈ ap.strides, 0 ≤ s) (hd : ∀ d ∈ ap.shape, 0 < d)
+    (hdot : dot (ap.shape.map (· - 1)) ap.strides < len)
+    (hp : isPerm axes ap.shape.length = true)
+    (h : ap.T axes = .ok (.ok tap ax')) (hnv : isVector ap.shape = false) :
+    tap.strides.length = tap.shape.length ∧ (∀ s ∈ tap.strides, 0 ≤ s) ∧ (∀ d ∈ tap.shape, 0 < d) ∧
+      dot (tap.shape.map (· - 1)) tap.strides < len := by
+  rcases apT_ok_cases ap tap axes ax' hr hl hp h hnv with ⟨e1, e2⟩ | ⟨e1, e2⟩
+  · rw [e1, e2]; exact ⟨hl, hs, hd, hdot⟩
+  · rw [e1, e2]
+    refine ⟨by simp, ?_, ?_, ?_⟩
+    · intro s hs'
+      exact hs s (gather_mem axes _ (hl ▸ hp) ap.strides rfl s hs')
+    · intro d hd'
+      exact hd d (gather_mem axes _ hp ap.shape rfl d hd')
+    · rw [← gather_map (· - 1) axes _ hp ap.shape rfl,
+        dot_getElem_perm axes _ hp _ _ (by simp) hl]
+      exact hdot
+
+end TM.ShapeAlg
